@@ -136,7 +136,7 @@ def extract_fn(src, name, impl_header_rx=None):
 
 
 def extract_const(src, name):
-    m = find_code(src, r"(?:pub(?:\([a-z]+\))?\s+)?const\s+%s\s*:[^;]*;" % re.escape(name))
+    m = find_code(src, r"(?:pub(?:\([a-z]+\))?\s+)?const\s+%s\s*:[^;]*;" % re.escape(name), )
     if not m:
         raise LostAnchor("const " + name)
     return m.group(0)
@@ -186,6 +186,7 @@ RULES = {
                           "debug assertions are re-introduced as `requires` clauses (checked at call sites instead of at run time)"),
     "drop_attributes": (_re_rule(r"^[ \t]*#\[[^\]\n]*\]\s*\n", ""), "derive/doc/allow/inline attributes are irrelevant to verification"),
     "pub_fields": (_re_rule(r"^([ \t]+)(?!pub\b)([a-z_][a-z0-9_]*\s*:)", r"\1pub \2"), "Verus spec functions can only mention public fields"),
+    "pub_tuple_field": (_re_rule(r"(struct\s+\w+\s*\()\s*(?!pub\b)", r"\1pub "), "Verus spec functions can only mention public fields"),
     "pub_item": (_re_rule(r"^(\s*)(?:pub\([a-z]+\)\s+)?(?!pub\b)(struct|fn|const fn|const|unsafe fn)\b", r"\1pub \2", flags=0), "Verus visibility rule for specs"),
     "op_assign_add": (_re_rule(r"([A-Za-z_][A-Za-z0-9_\.]*)\s*\+=\s*([^;]+);", r"\1 = \1 + \2;"), "compound assignment through an operator trait is not supported by Verus"),
     "op_assign_sub": (_re_rule(r"([A-Za-z_][A-Za-z0-9_\.]*)\s*-=\s*([^;]+);", r"\1 = \1 - \2;"), "compound assignment through an operator trait is not supported by Verus"),
@@ -293,6 +294,12 @@ def build(unit, repo):
             start_line = cur_line()
             if it["kind"] == "struct":
                 text, _, _, _ = extract_block_item(src, r"(?:pub(?:\([a-z]+\))?\s+)?struct\s+%s\b" % re.escape(it["name"]))
+                hashes[it["name"]] = hashlib.sha256(text.encode()).hexdigest()[:16]
+                text = apply_rules(text, it.get("rules", []), fired)
+                parts.append(it.get("attrs", "") + text + "\n")
+            elif it["kind"] == "block":
+                # a whole `impl ... { ... }` block (e.g. an operator impl), taken verbatim
+                text, _, _, _ = extract_block_item(src, it["header"])
                 hashes[it["name"]] = hashlib.sha256(text.encode()).hexdigest()[:16]
                 text = apply_rules(text, it.get("rules", []), fired)
                 parts.append(it.get("attrs", "") + text + "\n")
